@@ -393,13 +393,9 @@ func sides(v, left, right ssa.Value) (fromL, fromR bool) {
 				if !ok || mc.Fn != ssa.Value(lit) {
 					return
 				}
-				for _, rr := range referrers(mc) {
-					c, ok := rr.(*ssa.Call)
-					if !ok {
-						continue
-					}
+				for _, c := range closureArgCalls(mc) {
 					for _, a := range c.Call.Args {
-						if a != ssa.Value(mc) {
+						if stripConv(a) != ssa.Value(mc) {
 							backSlice(a, visit)
 						}
 					}
@@ -445,4 +441,31 @@ func (w *World) inPlaceEvaluator(e *ssa.Function, r *Roles) (int, bool) {
 		}
 	})
 	return idx, returnsOwn
+}
+
+// closureArgCalls: the calls that receive the closure (also converted to a named function type, e.g. as the receiver
+// of a method of that type) as an argument.
+func closureArgCalls(mc ssa.Value) []*ssa.Call {
+	var out []*ssa.Call
+	var walk func(v ssa.Value, d int)
+	walk = func(v ssa.Value, d int) {
+		if d > 2 {
+			return
+		}
+		for _, rr := range referrers(v) {
+			switch x := rr.(type) {
+			case *ssa.Call:
+				for _, a := range x.Call.Args {
+					if a == v {
+						out = append(out, x)
+						break
+					}
+				}
+			case *ssa.ChangeType:
+				walk(x, d+1)
+			}
+		}
+	}
+	walk(mc, 0)
+	return out
 }
